@@ -190,6 +190,12 @@ func getMinIntType(
 		nMax = &v
 	}
 
+	// An empty range cannot be narrowed: keep int64 and both checks, so that every stated bound
+	// still fits the type it is compared with.
+	if nMin != nil && nMax != nil && *nMin > *nMax {
+		return i64, false, false
+	}
+
 	if nMin != nil && *nMin >= 0 {
 		return adjustForUnsignedBounds(nMin, nMax)
 	}
